@@ -92,6 +92,13 @@ func (t *Term) String() string {
 		} else {
 			s = "phi(" + strings.Join(out, "|") + ")"
 		}
+	case "mk":
+		// a struct value built field by field (composite literal / parameter object / result struct)
+		parts := make([]string, len(t.Args))
+		for i, a := range t.Args {
+			parts[i] = a.Name + ":" + a.Args[0].String()
+		}
+		s = "mk{" + strings.Join(parts, ",") + "}"
 	case "make":
 		s = "make(" + t.Name + ")"
 	case "lit":
@@ -107,6 +114,86 @@ func (t *Term) String() string {
 		s = "~" + s
 	}
 	t.str = s
+	return s
+}
+
+// FieldOf: the term of field `name` of base — the component itself when base is a struct built field by field.
+func FieldOf(base *Term, name string) *Term {
+	if base != nil && base.Op == "mk" {
+		for _, a := range base.Args {
+			if a.Name == name {
+				return a.Args[0]
+			}
+		}
+		return &Term{Op: "zero", Name: "zero:" + name}
+	}
+	return &Term{Op: "field", Name: name, Args: []*Term{base}, Unstable: base != nil && base.Unstable && base.Op != "mk"}
+}
+
+// ReduceLiteralFields rewrites, in a rendered term, every  mk{...,f:X,...}.f  to X (after parameter substitution a
+// helper's  #i.f  can have become a field of the caller's literal).
+func ReduceLiteralFields(s string) string {
+	for iter := 0; iter < 20; iter++ {
+		i := strings.Index(s, "mk{")
+		found := false
+		for i >= 0 {
+			// find the matching brace
+			depth, j := 0, i+2
+			for ; j < len(s); j++ {
+				if s[j] == '{' || s[j] == '(' || s[j] == '[' {
+					depth++
+				} else if s[j] == '}' || s[j] == ')' || s[j] == ']' {
+					depth--
+					if depth == 0 {
+						break
+					}
+				}
+			}
+			if j >= len(s) {
+				return s
+			}
+			if j+1 < len(s) && s[j+1] == '.' {
+				// field name
+				k := j + 2
+				for k < len(s) && (s[k] == '_' || s[k] >= '0' && s[k] <= '9' || s[k] >= 'a' && s[k] <= 'z' || s[k] >= 'A' && s[k] <= 'Z') {
+					k++
+				}
+				name := s[j+2 : k]
+				// split the body at top-level commas
+				body := s[i+3 : j]
+				val := "zero:" + name
+				d2, start := 0, 0
+				for q := 0; q <= len(body); q++ {
+					if q == len(body) || (body[q] == ',' && d2 == 0) {
+						part := body[start:q]
+						if c := strings.Index(part, ":"); c >= 0 && part[:c] == name {
+							val = part[c+1:]
+						}
+						start = q + 1
+						continue
+					}
+					if body[q] == '{' || body[q] == '(' || body[q] == '[' {
+						d2++
+					} else if body[q] == '}' || body[q] == ')' || body[q] == ']' {
+						d2--
+					}
+				}
+				pre := s[:i]
+				pre = strings.TrimSuffix(pre, "~")
+				s = pre + val + s[k:]
+				found = true
+				break
+			}
+			n := strings.Index(s[i+3:], "mk{")
+			if n < 0 {
+				break
+			}
+			i = i + 3 + n
+		}
+		if !found {
+			return s
+		}
+	}
 	return s
 }
 
@@ -281,7 +368,7 @@ func (r *Resolver) compute(v ssa.Value, d int) *Term {
 		base := r.of(x.X, d+1)
 		return &Term{Op: "field", Name: fieldName(x.X.Type(), x.Field), Args: []*Term{stripAddr(base)}}
 	case *ssa.Field:
-		return &Term{Op: "field", Name: fieldNameV(x.X.Type(), x.Field), Args: []*Term{r.of(x.X, d+1)}}
+		return FieldOf(r.of(x.X, d+1), fieldNameV(x.X.Type(), x.Field))
 	case *ssa.IndexAddr:
 		base := stripAddr(r.of(x.X, d+1))
 		if c, ok := x.Index.(*ssa.Const); ok {
@@ -558,7 +645,8 @@ func (r *Resolver) fieldOfLocal(al *ssa.Alloc, name string, d int) *Term {
 	if fa == nil {
 		// never addressed field-wise: only whole-value stores can define it
 		c := r.allocContent(al, -1, d+1)
-		return &Term{Op: "field", Name: name, Args: []*Term{c}, Unstable: c.Unstable}
+		ft := FieldOf(c, name)
+		return ft
 	}
 	return r.allocField(al, fa, []int{idx}, d+1)
 }
@@ -603,6 +691,9 @@ func (r *Resolver) substParamTerms(t *Term, args []*Term, vals []ssa.Value, dept
 	nt.Args = make([]*Term, len(t.Args))
 	for i, a := range t.Args {
 		nt.Args[i] = r.substParamTerms(a, args, vals, depth+1, d)
+	}
+	if nt.Op == "field" && len(nt.Args) == 1 && nt.Args[0] != nil && nt.Args[0].Op == "mk" {
+		return FieldOf(nt.Args[0], nt.Name)
 	}
 	return nt
 }
@@ -730,6 +821,11 @@ func (r *Resolver) allocContent(a *ssa.Alloc, _ int, d int) *Term {
 	if len(whole) == 1 && !fieldWrites && !escapes {
 		return r.of(whole[0].Val, d+1)
 	}
+	if len(whole) == 0 && fieldWrites && !escapes {
+		if t := r.structLiteral(a, d); t != nil {
+			return t
+		}
+	}
 	if len(whole) == 0 && !fieldWrites && !escapes {
 		return &Term{Op: "zero", Name: "zero:" + allocName(a)}
 	}
@@ -747,6 +843,58 @@ func (r *Resolver) allocContent(a *ssa.Alloc, _ int, d int) *Term {
 		return &Term{Op: "phi", Name: allocName(a), Args: args, Unstable: true}
 	}
 	return &Term{Op: "alloc", Name: allocName(a), Unstable: true}
+}
+
+// structLiteral: a struct-typed local that is only ever written by one direct store per field (a composite literal,
+// or a value filled in field by field) and whose address does not escape: the struct value is the tuple of those
+// field values.
+func (r *Resolver) structLiteral(a *ssa.Alloc, d int) *Term {
+	st := structOf(a.Type())
+	if st == nil || d > maxDepth-2 {
+		return nil
+	}
+	vals := map[int]ssa.Value{}
+	for _, ref := range *a.Referrers() {
+		fa, ok := ref.(*ssa.FieldAddr)
+		if !ok {
+			continue
+		}
+		for _, rr := range *fa.Referrers() {
+			switch x := rr.(type) {
+			case *ssa.Store:
+				if x.Addr != fa {
+					return nil
+				}
+				if _, dup := vals[fa.Field]; dup {
+					return nil // assigned more than once: not a literal
+				}
+				vals[fa.Field] = x.Val
+			case *ssa.UnOp, *ssa.DebugRef:
+			default:
+				return nil // nested writes, address taken, calls on the field
+			}
+		}
+	}
+	if len(vals) == 0 {
+		return nil
+	}
+	// every field store precedes every load of the whole value: require all stores in the alloc's own block
+	for _, ref := range *a.Referrers() {
+		if fa, ok := ref.(*ssa.FieldAddr); ok {
+			for _, rr := range *fa.Referrers() {
+				if x, ok := rr.(*ssa.Store); ok && x.Block() != a.Block() {
+					return nil
+				}
+			}
+		}
+	}
+	t := &Term{Op: "mk", Name: allocName(a)}
+	for i := 0; i < st.NumFields(); i++ {
+		if v, ok := vals[i]; ok {
+			t.Args = append(t.Args, &Term{Op: "fieldinit", Name: fieldName(a.Type(), i), Args: []*Term{r.of(v, d+1)}})
+		}
+	}
+	return t
 }
 
 func (r *Resolver) fieldAddrWritten(fa *ssa.FieldAddr) bool {
@@ -827,7 +975,11 @@ func (r *Resolver) allocField(al *ssa.Alloc, fa *ssa.FieldAddr, path []int, d in
 		t := base
 		T := al.Type()
 		for _, f := range path {
-			t = &Term{Op: "field", Name: fieldName(T, f), Args: []*Term{t}}
+			if t != nil && t.Op == "mk" {
+				t = FieldOf(t, fieldName(T, f))
+			} else {
+				t = &Term{Op: "field", Name: fieldName(T, f), Args: []*Term{t}}
+			}
 			if s := structOf(T); s != nil && f < s.NumFields() {
 				T = s.Field(f).Type()
 			}
